@@ -241,8 +241,12 @@ class Scale(EnvironmentFilter):
 
         return scale_num if scale_den < .000001 else scale_num/scale_den
 
+def _is_missing(value) -> bool:
+    #None and nan (nan != nan) are missing values
+    return value is None or value != value
+
 class Impute(EnvironmentFilter):
-    """Impute missing values (nan) in Interaction contexts."""
+    """Impute missing values (None and nan) in Interaction contexts."""
 
     def __init__(self,
         stat : Literal["mean","median","mode"] = "mean",
@@ -338,7 +342,7 @@ class Impute(EnvironmentFilter):
             if self._miss:
                 #every feature with a missing value in the window gets an indicator (as single value contexts do)
                 for i in range(len(first['context'])):
-                    if any([it['context'][i] is None for it in using_interactions]):
+                    if any([_is_missing(it['context'][i]) for it in using_interactions]):
                         impute_binary[i] = len(impute_binary)
 
         elif is_sparse:
@@ -353,13 +357,13 @@ class Impute(EnvironmentFilter):
                     imputations[k] = imputation
             if self._miss:
                 #every feature with a missing value in the window gets an indicator (as single value contexts do)
-                for k in {k for it in using_interactions for k,v in it['context'].items() if v is None}:
+                for k in {k for it in using_interactions for k,v in it['context'].items() if _is_missing(v)}:
                     impute_binary[k] = f"{k}_is_missing"
                     binary_template[f"{k}_is_missing"] = 0
 
         elif is_value:
             imputations = self._get_imputation(unimputed)
-            impute_binary = self._miss and any([c is None for c in unimputed])
+            impute_binary = self._miss and any([_is_missing(c) for c in unimputed])
         self._times[2] += time.time()-start
 
         start = time.time()
@@ -370,7 +374,7 @@ class Impute(EnvironmentFilter):
             if is_dense:
                 is_missing = [0]*len(impute_binary)
                 for k,v in enumerate(context):
-                    if v is None:
+                    if _is_missing(v):
                         if k in imputations: context[k] = imputations[k]
                         if k in impute_binary: is_missing[impute_binary[k]] = 1
                 context += is_missing
@@ -379,7 +383,7 @@ class Impute(EnvironmentFilter):
 
                 is_missing = binary_template.copy()
                 for k,v in context.items():
-                    if v is None:
+                    if _is_missing(v):
                         if k in impute_binary: is_missing[impute_binary[k]] = 1
                         if k in imputations:
                             context[k] = imputations[k]
@@ -389,12 +393,12 @@ class Impute(EnvironmentFilter):
 
             elif is_value:
                 if impute_binary:
-                    if context is None:
-                        interaction["context"] = [imputations,1]
+                    if _is_missing(context):
+                        interaction["context"] = [imputations if imputations is not None else context,1]
                     else:
                         interaction["context"] = [context,0]
                 else:
-                    if context is None:
+                    if _is_missing(context) and imputations is not None:
                         interaction["context"] = imputations
 
             yield interaction
@@ -402,7 +406,7 @@ class Impute(EnvironmentFilter):
 
     def _get_imputation(self,values):
         try:
-            values = [v for v in values if v is not None]
+            values = [v for v in values if not _is_missing(v)]
             if self._stat != "mode" and not all(isinstance(v,(int,float)) for v in values):
                 return None #mean and median are only defined for numeric features
             if self._stat == "mean":
